@@ -214,8 +214,13 @@ def run(ctx, sess):
     val = list(w.calls('jls_core_signal_def_validate'))
     al = list(w.calls('jls_core_signal_def_align'))
     ser_calls = [ev for ev in w.calls() if ev.callee and ev.callee.startswith('jls_buf_wr_')]
-    ok = bool(val) and bool(al) and all(ev_dominates(val[0], x) for x in al) and all(ev_dominates(al[0], s) for s in ser_calls)
+    ok = bool(val) and bool(al) and all(any(ev_dominates(v_, x) for v_ in val) for x in al) and all(any(ev_dominates(a_, s) for a_ in al) for s in ser_calls)
     ctx.ob('C16.5', ok, w.name, 'validate -> align -> serialise', w.where(), 'order holds: %s' % ok)
+    # what is serialised was validated: the reader validates the stored values, so the writer must validate the aligned ones
+    ok_v = bool(al) and any(all(ev_dominates(a_, v_) for a_ in al) and all(ev_dominates(v_, s_) for s_ in ser_calls) for v_ in val)
+    ctx.ob('C16.5', ok_v, w.name, 'the aligned definition is validated before it is serialised', (al[-1].where() if al else w.where()),
+           'a validation follows the alignment' if ok_v else
+           'only the caller\'s values are validated; alignment can lift a parameter above the validator\'s bound, the definition is written, and the reader (which validates the stored values) drops the signal')
     # the serialised object is the aligned one
     if al:
         ap = w.path(al[0].args[0])
